@@ -169,6 +169,9 @@ impl Check for Histories {
     fn describe(&self, bytes: &[u8]) -> Value {
         describe_case(&decode(bytes))
     }
+    fn minimise(&self, bytes: &[u8]) -> Option<(Box<dyn Check>, Vec<u8>)> {
+        minimise_history(&decode(bytes)).map(|b| (Box::new(ExplicitHistory) as Box<dyn Check>, b))
+    }
 }
 
 /// Validity-preserving histories: model mutations and layout edits, delivered as minimal text
@@ -259,6 +262,9 @@ impl Check for ModelEdits {
         v["edit_classes"] = json!(classes);
         v
     }
+    fn minimise(&self, bytes: &[u8]) -> Option<(Box<dyn Check>, Vec<u8>)> {
+        minimise_history(&decode_model(bytes).0).map(|b| (Box::new(ExplicitHistory) as Box<dyn Check>, b))
+    }
 }
 
 /// Explicit histories (regression corpus): the bytes are the UTF-8 JSON text
@@ -313,6 +319,53 @@ impl Check for ExplicitHistory {
     fn describe(&self, bytes: &[u8]) -> Value {
         decode_explicit(bytes).map_or(json!("undecodable"), |c| describe_case(&c))
     }
+}
+
+/// Domain-aware second shrinking pass: isolate the failing step, try its changes one by one from
+/// the fresh state, shrink (old text, change) character-wise while the tree under test still
+/// diverges and the pinned copy still does not, and emit an explicit one-step history.
+fn minimise_history(case: &Case) -> Option<Vec<u8>> {
+    use crate::devtools::{shrink_with, Mini};
+    let step = match run_history(case, |_| {}) {
+        Err((step, _, _)) if step >= 1 => step,
+        _ => return None,
+    };
+    let mut text = case.initial.clone();
+    for batch in case.history.iter().take(step - 1) {
+        for e in batch {
+            text.replace_range(e.range.clone(), &e.text);
+        }
+    }
+    let violates = |c: &Case| -> bool {
+        match run_history(c, |_| {}) {
+            Err((st, _, _)) => !crate::pinned_triage::fails_too(c, st),
+            Ok(()) => false,
+        }
+    };
+    let batch = &case.history[step - 1];
+    // a single change of the batch that fails on its own (from the fresh state before it)?
+    let mut t = text.clone();
+    for e in batch {
+        let single = Case { stratum: "explicit".into(), initial: t.clone(), history: vec![vec![e.clone()]] };
+        if violates(&single) {
+            let m = Mini { pre: t[..e.range.start].to_string(), del: t[e.range.clone()].to_string(), suf: t[e.range.end..].to_string(), ins: e.text.clone() };
+            let as_case = |m: &Mini| Case {
+                stratum: "explicit".into(),
+                initial: m.old_text(),
+                history: vec![vec![Edit { range: m.pre.len()..m.pre.len() + m.del.len(), text: m.ins.clone() }]],
+            };
+            let small = shrink_with(m, &|m| violates(&as_case(m)));
+            let c = as_case(&small);
+            return Some(serde_json::to_vec(&describe_case(&c)).unwrap());
+        }
+        t.replace_range(e.range.clone(), &e.text);
+    }
+    // the batch only fails as a whole: keep it, drop the steps before it
+    let c = Case { stratum: "explicit".into(), initial: text, history: vec![batch.clone()] };
+    if violates(&c) {
+        return Some(serde_json::to_vec(&describe_case(&c)).unwrap());
+    }
+    None
 }
 
 pub fn checks() -> Vec<Box<dyn Check>> {
